@@ -96,7 +96,7 @@ Proof. reflexivity. Qed.
 
 Example C02_nonvacuous :
   let L i := Some {| te := Leaf i true; mbox := None |} in
-  let w := {| pipeline := [mk_step (FStr 1) (L 0); mk_step (FStr 2) (L 1); mk_step (FStr 3) None]; attrs := [] |} in
+  let w := (mk_wcs [mk_step (FStr 1) (L 0); mk_step (FStr 2) (L 1); mk_step (FStr 3) None] []) in
   m_backward_transform w = Ok (Some {| te := Pipe (LeafInv 1) (LeafInv 0); mbox := None |}) /\ invert_path w = true.
 Proof. cbn. split; reflexivity. Qed.
 
